@@ -105,15 +105,20 @@ static void run_cell(int k) {
 }
 
 int main(int argc, char **argv) {
-    FILE *f; char line[256];
+    FILE *f; char *text, *line, *save = NULL; long sz;
     if (argc < 2 || !(f = fopen(argv[1], "r"))) { fprintf(stderr, "usage: %s <scriptfile>\n", argv[0]); return 2; }
+    /* the whole script is read first: a child that ends through exit() would otherwise rewind the shared file offset */
+    fseek(f, 0, SEEK_END); sz = ftell(f); rewind(f);
+    text = (char *) malloc((size_t) sz + 1);
+    if (fread(text, 1, (size_t) sz, f) != (size_t) sz) { perror("read"); return 2; }
+    text[sz] = 0;
+    fclose(f);
     shared = (int *) mmap(NULL, 4096, PROT_READ | PROT_WRITE, MAP_SHARED | MAP_ANONYMOUS, -1, 0);
     if (shared == MAP_FAILED) { perror("mmap"); return 2; }
     setvbuf(stdout, NULL, _IOLBF, 0);
     printf("BUILD DEBUG=%d\n", (int) DEBUG);
-    while (fgets(line, sizeof(line), f)) {
-        char *nl = strchr(line, '\n'); int k;
-        if (nl) *nl = 0;
+    for (line = strtok_r(text, "\n", &save); line; line = strtok_r(NULL, "\n", &save)) {
+        int k;
         if (line[0] == 'L') { libast_debug_level = (unsigned) atoi(line + 2); printf("L %u\n", libast_debug_level); }
         else if (line[0] == 'S') { int b = atoi(line + 2); printf("S %d %d\n", b, (int) libast_set_silent(b ? TRUE : FALSE)); }
         else if (line[0] == 'X') {
@@ -122,6 +127,7 @@ int main(int argc, char **argv) {
             run_cell(k);
         }
     }
+    free(text);
     printf("DONE\n");
     return 0;
 }
